@@ -52,6 +52,45 @@ fn ic_kind(k: Kind) -> InformationContentKind {
     }
 }
 
+/// Field groups of the observation. A property whose statement speaks about one aspect of an ontology (its
+/// ancestor sets, its annotation links, its information content, its classification) compares only that aspect
+/// with the model: a difference in an aspect the statement does not mention is another property's business and
+/// is reported by that property's check. Properties that claim observational identity (round trip, decoder,
+/// text loaders, order independence, rejected calls, sub-ontology) compare everything.
+pub mod scope {
+    /// release version text
+    pub const VERSION: u32 = 1;
+    /// name, obsolete flag, replacement of a term
+    pub const TERM_DATA: u32 = 2;
+    /// direct parents, children, ancestors (and their iterator twins)
+    pub const GRAPH: u32 = 4;
+    /// term <-> record links, the sets of records, the direct terms of a record (and their resolution by id)
+    pub const LINKS: u32 = 8;
+    /// names / symbols of records
+    pub const REC_NAMES: u32 = 16;
+    /// information content
+    pub const IC: u32 = 32;
+    /// is_modifier, categories, the ontology's category and modifier lists
+    pub const CLASSIFY: u32 = 64;
+    /// ascending order of the id lists the API hands out
+    pub const ORDER: u32 = 128;
+    pub const ALL: u32 = u32::MAX;
+}
+
+thread_local! {
+    static SCOPE: std::cell::Cell<u32> = std::cell::Cell::new(scope::ALL);
+}
+
+/// Restrict what `Obs::of` demands and `Obs::diff` reports to the given field groups (per process: one property).
+/// The set of term ids, `len()` and the resolution of every iterated term by `hpo(id)` are always compared.
+pub fn set_scope(mask: u32) {
+    SCOPE.with(|s| s.set(mask));
+}
+
+fn in_scope(group: u32) -> bool {
+    SCOPE.with(|s| s.get() & group != 0)
+}
+
 /// Internal consistency failure found while walking the API (e.g. an iterator disagreeing with its id twin).
 #[derive(Debug, Clone)]
 pub struct Incoherent {
@@ -114,27 +153,32 @@ impl Obs {
             let Some(t2) = ont.hpo(t.id()) else {
                 return bad("Ontology::hpo", format!("iter yields {id} but hpo({id}) is None"));
             };
-            if t2.id() != t.id() || t2.name() != t.name() {
+            if t2.id() != t.id() || (in_scope(scope::TERM_DATA) && t2.name() != t.name()) {
                 return bad("Ontology::hpo", format!("hpo({id}) returns a different term than iter()"));
             }
             let parents = ids(t.parent_ids());
             let children = ids(t.children_ids());
             let ancestors = ids(t.all_parent_ids());
-            for (what, v) in [("parent_ids", &parents), ("children_ids", &children), ("all_parent_ids", &ancestors)] {
-                if !strictly_ascending(v) {
-                    return bad(&format!("HpoTerm::{what}"), format!("term {id}: not strictly ascending: {v:?}"));
+            if in_scope(scope::ORDER) {
+                for (what, v) in [("parent_ids", &parents), ("children_ids", &children), ("all_parent_ids", &ancestors)] {
+                    if !strictly_ascending(v) {
+                        return bad(&format!("HpoTerm::{what}"), format!("term {id}: not strictly ascending: {v:?}"));
+                    }
                 }
             }
+            // (outside the ORDER scope the lists are compared as multisets: sorted, duplicates kept)
+            let (parents, children, ancestors) = (sorted(parents), sorted(children), sorted(ancestors));
             let parents_it: Vec<u32> = t.parents().map(|x| x.id().as_u32()).collect();
             let children_it: Vec<u32> = t.children().map(|x| x.id().as_u32()).collect();
             let ancestors_it: Vec<u32> = t.all_parents().map(|x| x.id().as_u32()).collect();
-            if parents_it != parents {
+            let (parents_it, children_it, ancestors_it) = if in_scope(scope::ORDER) { (parents_it, children_it, ancestors_it) } else { (sorted(parents_it), sorted(children_it), sorted(ancestors_it)) };
+            if in_scope(scope::GRAPH) && parents_it != parents {
                 return bad("HpoTerm::parents", format!("term {id}: iterator {parents_it:?} != parent_ids {parents:?}"));
             }
-            if children_it != children {
+            if in_scope(scope::GRAPH) && children_it != children {
                 return bad("HpoTerm::children", format!("term {id}: iterator {children_it:?} != children_ids {children:?}"));
             }
-            if ancestors_it != ancestors {
+            if in_scope(scope::GRAPH) && ancestors_it != ancestors {
                 return bad("HpoTerm::all_parents", format!("term {id}: iterator {ancestors_it:?} != all_parent_ids {ancestors:?}"));
             }
             let g = sorted(t.gene_ids().iter().map(|x| x.as_u32()).collect());
@@ -143,25 +187,27 @@ impl Obs {
             let g_it = sorted(t.genes().map(|x| x.id().as_u32()).collect());
             let o_it = sorted(t.omim_diseases().map(|x| x.id().as_u32()).collect());
             let r_it = sorted(t.orpha_diseases().map(|x| x.id().as_u32()).collect());
-            if g_it != g {
+            if in_scope(scope::LINKS) && g_it != g {
                 return bad("HpoTerm::genes", format!("term {id}: iterator {g_it:?} != gene_ids {g:?}"));
             }
-            if o_it != o {
+            if in_scope(scope::LINKS) && o_it != o {
                 return bad("HpoTerm::omim_diseases", format!("term {id}: iterator {o_it:?} != omim_disease_ids {o:?}"));
             }
-            if r_it != r {
+            if in_scope(scope::LINKS) && r_it != r {
                 return bad("HpoTerm::orpha_diseases", format!("term {id}: iterator {r_it:?} != orpha_disease_ids {r:?}"));
             }
             let icv = t.information_content();
             let ic = [icv.gene(), icv.omim_disease(), icv.orpha_disease()];
             for k in KINDS {
-                if icv.get_kind(&ic_kind(k)).to_bits() != ic[k.idx()].to_bits() {
+                if in_scope(scope::IC) && icv.get_kind(&ic_kind(k)).to_bits() != ic[k.idx()].to_bits() {
                     return bad("InformationContent::get_kind", format!("term {id}: get_kind({}) differs from the accessor", k.name()));
                 }
             }
             let replacement = t.replacement_id().map(|x| x.as_u32());
             // replaced_by() resolves the id when the target exists
-            if let Some(rid) = replacement {
+            if !in_scope(scope::TERM_DATA) {
+                // replacement / replaced_by consistency belongs to the term data
+            } else if let Some(rid) = replacement {
                 let resolved = t.replaced_by().map(|x| x.id().as_u32());
                 let exists = ont.hpo(rid).is_some();
                 if exists && resolved != Some(rid) {
@@ -194,6 +240,8 @@ impl Obs {
         let via_hpos: Vec<u32> = ont.hpos().map(|t| t.id().as_u32()).collect();
         let via_ref: Vec<u32> = (&ont).into_iter().map(|t| t.id().as_u32()).collect();
         let via_iter: Vec<u32> = ont.iter().map(|t| t.id().as_u32()).collect();
+        // (their relative order is nobody's statement: compared as sets)
+        let (via_hpos, via_ref, via_iter) = (sorted(via_hpos), sorted(via_ref), sorted(via_iter));
         if via_hpos != via_iter || via_ref != via_iter {
             return bad("Ontology::hpos", "hpos()/&ontology/iter() disagree".to_string());
         }
@@ -210,18 +258,21 @@ impl Obs {
                 return bad("Ontology::genes", format!("yields gene {id} twice"));
             }
             match ont.gene(g.id()) {
-                Some(g2) if g2.name() == g.name() && g2.id() == g.id() => {}
+                Some(g2) if (g2.name() == g.name() || !in_scope(scope::REC_NAMES)) && g2.id() == g.id() => {}
                 _ => return bad("Ontology::gene", format!("genes() yields {id} but gene({id}) does not return it")),
             }
-            if g.symbol() != g.name() {
+            if in_scope(scope::REC_NAMES) && g.symbol() != g.name() {
                 return bad("Gene::symbol", format!("gene {id}: symbol() != name()"));
             }
             let terms_direct = ids(g.hpo_terms());
-            if !strictly_ascending(&terms_direct) {
+            if in_scope(scope::ORDER) && !strictly_ascending(&terms_direct) {
                 return bad("Gene::hpo_terms", format!("gene {id}: not strictly ascending {terms_direct:?}"));
             }
+            let terms_direct = sorted(terms_direct);
             let set_terms: Vec<u32> = g.to_hpo_set(ont).iter().map(|t| t.id().as_u32()).collect();
-            if set_terms != terms_direct {
+            // (the order in which the derived set iterates is nobody's statement)
+            let set_terms = sorted(set_terms);
+            if in_scope(scope::LINKS) && set_terms != terms_direct {
                 return bad("Gene::to_hpo_set", format!("gene {id}: set {set_terms:?} != hpo_terms {terms_direct:?}"));
             }
             recs[0].push(ObsRec { id, name: g.name().to_string(), terms: terms_direct });
@@ -233,15 +284,18 @@ impl Obs {
                 return bad("Ontology::omim_diseases", format!("yields disease {id} twice"));
             }
             match ont.omim_disease(d.id()) {
-                Some(d2) if d2.name() == d.name() && d2.id() == d.id() => {}
+                Some(d2) if (d2.name() == d.name() || !in_scope(scope::REC_NAMES)) && d2.id() == d.id() => {}
                 _ => return bad("Ontology::omim_disease", format!("omim_diseases() yields {id} but omim_disease({id}) does not return it")),
             }
             let terms_direct = ids(d.hpo_terms());
-            if !strictly_ascending(&terms_direct) {
+            if in_scope(scope::ORDER) && !strictly_ascending(&terms_direct) {
                 return bad("OmimDisease::hpo_terms", format!("disease {id}: not strictly ascending {terms_direct:?}"));
             }
+            let terms_direct = sorted(terms_direct);
             let set_terms: Vec<u32> = d.to_hpo_set(ont).iter().map(|t| t.id().as_u32()).collect();
-            if set_terms != terms_direct {
+            // (the order in which the derived set iterates is nobody's statement)
+            let set_terms = sorted(set_terms);
+            if in_scope(scope::LINKS) && set_terms != terms_direct {
                 return bad("OmimDisease::to_hpo_set", format!("disease {id}: set {set_terms:?} != hpo_terms {terms_direct:?}"));
             }
             recs[1].push(ObsRec { id, name: d.name().to_string(), terms: terms_direct });
@@ -253,15 +307,18 @@ impl Obs {
                 return bad("Ontology::orpha_diseases", format!("yields disease {id} twice"));
             }
             match ont.orpha_disease(d.id()) {
-                Some(d2) if d2.name() == d.name() && d2.id() == d.id() => {}
+                Some(d2) if (d2.name() == d.name() || !in_scope(scope::REC_NAMES)) && d2.id() == d.id() => {}
                 _ => return bad("Ontology::orpha_disease", format!("orpha_diseases() yields {id} but orpha_disease({id}) does not return it")),
             }
             let terms_direct = ids(d.hpo_terms());
-            if !strictly_ascending(&terms_direct) {
+            if in_scope(scope::ORDER) && !strictly_ascending(&terms_direct) {
                 return bad("OrphaDisease::hpo_terms", format!("disease {id}: not strictly ascending {terms_direct:?}"));
             }
+            let terms_direct = sorted(terms_direct);
             let set_terms: Vec<u32> = d.to_hpo_set(ont).iter().map(|t| t.id().as_u32()).collect();
-            if set_terms != terms_direct {
+            // (the order in which the derived set iterates is nobody's statement)
+            let set_terms = sorted(set_terms);
+            if in_scope(scope::LINKS) && set_terms != terms_direct {
                 return bad("OrphaDisease::to_hpo_set", format!("disease {id}: set {set_terms:?} != hpo_terms {terms_direct:?}"));
             }
             recs[2].push(ObsRec { id, name: d.name().to_string(), terms: terms_direct });
@@ -315,27 +372,27 @@ impl Obs {
         if ids_obs != ids_exp {
             return d("Ontology::iter", "wrong set of term ids", format!("observed {ids_obs:?} expected {ids_exp:?}"));
         }
-        if self.version != exp.version {
+        if in_scope(scope::VERSION) && self.version != exp.version {
             return d("Ontology::hpo_version", "wrong release version", format!("observed {} expected {}", self.version, exp.version));
         }
         for (a, b) in self.terms.iter().zip(exp.terms.iter()) {
             let id = a.id;
-            if a.name != b.name {
+            if in_scope(scope::TERM_DATA) && a.name != b.name {
                 return d("HpoTerm::name", "wrong name", format!("term {id}: observed {:?} expected {:?}", crate::model::short(&a.name), crate::model::short(&b.name)));
             }
-            if a.obsolete != b.obsolete {
+            if in_scope(scope::TERM_DATA) && a.obsolete != b.obsolete {
                 return d("HpoTerm::is_obsolete", "wrong obsolete flag", format!("term {id}: observed {} expected {}", a.obsolete, b.obsolete));
             }
-            if a.replacement != b.replacement {
+            if in_scope(scope::TERM_DATA) && a.replacement != b.replacement {
                 return d("HpoTerm::replacement_id", "wrong replacement", format!("term {id}: observed {:?} expected {:?}", a.replacement, b.replacement));
             }
-            if a.parents != b.parents {
+            if in_scope(scope::GRAPH) && a.parents != b.parents {
                 return d("HpoTerm::parent_ids", "direct parents differ", format!("term {id}: observed {:?} expected {:?}", a.parents, b.parents));
             }
-            if a.children != b.children {
+            if in_scope(scope::GRAPH) && a.children != b.children {
                 return d("HpoTerm::children_ids", "children are not the inverse of parents", format!("term {id}: observed {:?} expected {:?}", a.children, b.children));
             }
-            if a.ancestors != b.ancestors {
+            if in_scope(scope::GRAPH) && a.ancestors != b.ancestors {
                 let sig = if a.ancestors.contains(&id) {
                     "ancestor set contains the term itself"
                 } else if b.ancestors.iter().any(|x| !a.ancestors.contains(x)) {
@@ -347,7 +404,7 @@ impl Obs {
             }
             for k in KINDS {
                 let (x, y) = (&a.recs[k.idx()], &b.recs[k.idx()]);
-                if x != y {
+                if in_scope(scope::LINKS) && x != y {
                     let sig = if y.iter().any(|r| !x.contains(r)) { "inherited annotation missing on term" } else { "term linked to an annotation of no descendant" };
                     return d(&format!("HpoTerm::{}_ids", kind_fn(k)), sig, format!("term {id}: observed {x:?} expected {y:?}"));
                 }
@@ -355,35 +412,36 @@ impl Obs {
             for k in KINDS {
                 let (x, y) = (a.ic[k.idx()], b.ic[k.idx()]);
                 let ok = if exact_ic { x.to_bits() == y.to_bits() || (x == 0.0 && y == 0.0) } else { close32(x, y) };
-                if !ok {
+                if in_scope(scope::IC) && !ok {
                     return d(&format!("InformationContent::{}", kind_fn(k)), "information content is not -ln(n/N)", format!("term {id}: observed {x} expected {y}"));
                 }
             }
-            if a.is_modifier != b.is_modifier {
+            if in_scope(scope::CLASSIFY) && a.is_modifier != b.is_modifier {
                 return d("HpoTerm::is_modifier", "wrong modifier classification", format!("term {id}: observed {} expected {}", a.is_modifier, b.is_modifier));
             }
-            if a.categories != b.categories {
+            if in_scope(scope::CLASSIFY) && a.categories != b.categories {
                 return d("HpoTerm::categories", "wrong categories", format!("term {id}: observed {:?} expected {:?}", a.categories, b.categories));
             }
         }
-        if self.categories != exp.categories {
+        if in_scope(scope::CLASSIFY) && self.categories != exp.categories {
             return d("Ontology::categories", "wrong category set", format!("observed {:?} expected {:?}", self.categories, exp.categories));
         }
-        if self.modifier != exp.modifier {
+        if in_scope(scope::CLASSIFY) && self.modifier != exp.modifier {
             return d("Ontology::modifier", "wrong modifier roots", format!("observed {:?} expected {:?}", self.modifier, exp.modifier));
         }
         for k in KINDS {
             let (x, y) = (&self.recs[k.idx()], &exp.recs[k.idx()]);
             let xi: Vec<u32> = x.iter().map(|r| r.id).collect();
             let yi: Vec<u32> = y.iter().map(|r| r.id).collect();
-            if xi != yi {
+            if in_scope(scope::LINKS) && xi != yi {
                 return d(&format!("Ontology::{}s", rec_fn(k)), "wrong set of records", format!("observed {xi:?} expected {yi:?}"));
             }
-            for (p, q) in x.iter().zip(y.iter()) {
-                if p.name != q.name {
+            // (joined by id: outside the LINKS scope the two sets of records may differ)
+            for (p, q) in x.iter().filter_map(|p| y.iter().find(|q| q.id == p.id).map(|q| (p, q))) {
+                if in_scope(scope::REC_NAMES) && p.name != q.name {
                     return d(&format!("{}::name", rec_ty(k)), "wrong record name", format!("{} {}: observed {:?} expected {:?}", k.name(), p.id, crate::model::short(&p.name), crate::model::short(&q.name)));
                 }
-                if p.terms != q.terms {
+                if in_scope(scope::LINKS) && p.terms != q.terms {
                     let sig = if p.terms.iter().any(|t| !q.terms.contains(t)) { "record lists a term it was not directly annotated with" } else { "record lost a directly annotated term" };
                     return d(&format!("{}::hpo_terms", rec_ty(k)), sig, format!("{} {}: observed {:?} expected {:?}", k.name(), p.id, p.terms, q.terms));
                 }
